@@ -23,6 +23,16 @@ CLAIMS = {
             "Trusted: engine B, bytearray.reverse()/index-store semantics. Elements are integers in [0,255].",
             "abstract interpretation over an abstract buffer (generic element, affine domain) + def-use taint rule",
             "B", "DESIGN.md section 4, C08"),
+    "C09": ("proof",
+            "Every public add_* method of the real EoWriter is interpreted on an abstract writer (arbitrary earlier "
+            "contents, every two-step history of the sanitisation mode, symbolic integer / string length / length "
+            "argument / padded flag). On every path: raises iff the declared limit or length rule is violated, nothing "
+            "is written before a raise, an accepted call appends exactly the declared width/length, integers are the "
+            "prefix of encode_number, padding is 0xFF and added before encoding, the generic string byte is rewritten "
+            "0xFF->0x79 exactly when the mode is on.",
+            "Trusted: engine B + segmented buffers; cp1252/'replace' gives one byte per character; C08 for encode_string.",
+            "abstract interpretation of the class over segmented abstract buffers (affine domain, path forking)",
+            "B", "DESIGN.md section 4, C09"),
     "C10": ("other",
             "Decides: flip_msb is an involution fixing 0 and 128 on all 256 values, length-preserving and element-local "
             "(abstract interpretation, bit operations as div/mod identities, translate tables as piecewise-affine runs); "
